@@ -360,6 +360,12 @@ def run_case(case):
             out["forward_calls"] = calls + ccalls
     flags["data_untouched"] = bool(digest(data) == d_data)
     flags["model_untouched"] = bool(digest(model) == d_model)
+    # every model has its own list of constraints: giving one to a model built without any does not give it to the next one (F137)
+    mk = lambda: AlphaModel(Sphere(n=1.5, r=Uniform(0.3, 0.8), center=[1.0, 1.0, 6.0]), alpha=0.8, noise_sd=0.1, medium_index=1.33, illum_wavelen=0.66, illum_polarization=(1, 0))
+    mA = mk()
+    mA.constraints.append(LimitOverlaps(0.0))
+    flags["constraints_not_shared_between_models"] = bool(len(mk().constraints) == 0)
+    del mA.constraints[:]
     out.update({"resid": resid, "flags": flags, "nparams": len(names), "post": None if post is None else fnum(post)})
     return out
 
